@@ -269,6 +269,31 @@ def analyse(path, as_list=False, expect=1):
     return [th.iloc[i] for i in range(expect)], None
 
 
+def sigma_pth(ds, N):
+    """Cramer-Rao bound on the standard deviation of the fitted threshold
+    for binomial counts of N trials per point on the planted curve."""
+    p_th, nu, A, B, C = ds['prm']
+    P, D = [], []
+    for li, L in enumerate(ds['ds']):
+        ps = list(ds['ps'])
+        dr = ds.get('drop', [0] * len(ds['ds']))[li]
+        if dr and len(ps) - 2 * dr >= 7:
+            ps = ps[dr:len(ps) - dr]
+        P += ps
+        D += [L] * len(ps)
+    P, D = np.array(P), np.array(D, dtype=float)
+    x = (P - p_th) * D ** nu
+    f = np.clip(A + B * x + C * x * x, 1e-6, 1 - 1e-6)
+    J = np.stack([-(B + 2 * C * x) * D ** nu,
+                  (B + 2 * C * x) * x * np.log(D), np.ones_like(x), x,
+                  x * x], axis=1)
+    F = J.T @ (J * (N / (f * (1 - f)))[:, None])
+    try:
+        return float(np.sqrt(np.linalg.inv(F)[0, 0]))
+    except np.linalg.LinAlgError:
+        return float('inf')
+
+
 def judge_family(out, ds, rows, mode, desc, mech, j):
     p_th, nu, A, B, C = ds['prm']
     r = rows[0]
@@ -279,7 +304,13 @@ def judge_family(out, ds, rows, mode, desc, mech, j):
     w = dict(desc, p_th_fss=est, left=float(r['p_th_fss_left']),
              right=float(r['p_th_fss_right']),
              fit_status=r['fit_status'], rel_err=round(err, 4))
-    tol = TOL_EXACT if mode == 'exact' else TOL_BINOM
+    tol = TOL_EXACT
+    if mode != 'exact':
+        # statistical tolerance: 6 Cramer-Rao sigmas plus the systematic
+        # allowance of the exact variant, never above the frozen TOL_BINOM
+        tol = min(TOL_BINOM, 6 * sigma_pth(ds, N_BINOM) / ds['w']
+                  + TOL_EXACT)
+        w['tolerance'] = round(tol, 4)
     if r['fit_status'] != 'success':
         out.violation(f'{mech}/fit-not-successful',
                       f"fit_status={r['fit_status']!r} on planted "
@@ -354,6 +385,15 @@ def run_block(task, out):
                 out.count('datasets_with_out_of_codespace_trials')
             if A > 0.5:
                 out.count('datasets_with_A_above_half')
+            # binomial variant only where the data can decide: families whose
+            # Cramer-Rao sigma exceeds 6% of the half-window are given exact
+            # counts instead
+            if mode == 'binomial' and any(
+                    sigma_pth(fd, N_BINOM) / fd['w'] > 0.06 for fd in [ds]):
+                mode = 'exact'
+                desc['mode'] = mode
+                mech = f'thresholds/{mode}'
+                out.count('binomial_variants_below_statistical_power')
             # trials of one point delivered as several small records
             chunks = (j + task['i']) % 2 == 1
             desc['chunked'] = chunks
@@ -364,7 +404,9 @@ def run_block(task, out):
             second = None
             if rng.random() < 0.3:
                 d2 = draw(rng)
-                if abs(d2['prm'][0] - p_th) > 1.5 * (d2['w'] + ds['w']):
+                if abs(d2['prm'][0] - p_th) > 1.5 * (d2['w'] + ds['w']) and \
+                        not (mode == 'binomial' and
+                             sigma_pth(d2, N_BINOM) / d2['w'] > 0.06):
                     second = d2
                     out.count('directories_with_two_families')
             desc['two_families'] = second is not None
